@@ -1,0 +1,19 @@
+//go:build verif
+
+package code
+
+// Contracts for the verification machinery in /verif (comment-only; build tag verif).
+
+// C12: a reset code is consumed by its first successful use, every wrong guess is counted against the same cache
+// entry that was read, no guess is accepted once the counter has reached the limit, and a successful code yields a
+// record that cannot log in by itself.
+//@ func (ca *authenticator) Authenticate(secret []byte, remoteAddr string) (rec *auth.Rec, challenge []byte, err error)
+//@   requires [C12] ca != nil
+//@   modifies inferred
+//@   ensures [C12] consumed:      err == nil ==> pcDeletes == old(pcDeletes) + 1
+//@   ensures [C12] no_login:      err == nil ==> rec != nil && rec.AuthLevel == auth.LevelNone && (rec.Features & auth.FeatureNoLogin) != 0
+//@   ensures [C12] only_success_consumes: pcDeletes != old(pcDeletes) ==> err == nil
+//@   assert at call store.PersistentCacheInterface.Delete [C12] same_entry: $1 == pcLastGet
+//@   assert at call store.PersistentCacheInterface.Delete [C12] within_limit: count < ca.maxRetries
+//@   assert at call store.PersistentCacheInterface.Upsert [C12] same_entry: $1 == pcLastGet && !$3
+//@   assert at call store.PersistentCacheInterface.Upsert [C12] only_below_limit: count < ca.maxRetries
